@@ -158,6 +158,7 @@ def main(ctx):
                            'quantify over strings of scalar code points')
     for o in common.corpus('C10'):
         replay(ctx, o)
+    history_part(ctx, uri, model)      # first: nothing has been called yet in this process
     utf8_lib(ctx, model)
     maxlen = 4 if ctx.tier == 'quick' else 5
     strings = list(short_strings(ALPHABET, 4))
@@ -216,6 +217,82 @@ def utf8_lib(ctx, model):
     o = model.run([7, '\ud800'])
     if o[0] != 0:
         ctx.violation('lib-correspondence', {'broken': 'lib.Utf8 surrogate domain'}, found_input=False, key='utf8-sur')
+
+
+def history_part(ctx, uri, model):
+    """The seven functions are pure: a result may not depend on which calls came before.  A few thousand
+    fresh strings; every string goes through both members of each encoder pair in both orders, calls are
+    repeated and the strings interleaved in a seeded random order; every single result must equal the
+    model's (a function of the arguments only)."""
+    rng = ctx.rng
+    seeds = ['/docs/a%20b', 'a%2Fb/c', '%41', 'a b', 'x/y?z=1&w=2', '%zz', 'caf\xe9/%C3%A9', '~user/%7e', 'a%', '%%41', '/',
+             'plain', 'a+b/c%2B', '[::1]:80', 'h:8', '"q\\"x"', '%e2%82%ac/\u20ac', "!$&'()*+,;=:@/?#[]"]
+    alpha = ['%', '2', '0', 'F', 'f', 'a', '/', '~', ' ', '+', '\xe9', '?', '=', ':', '"', '\\']
+    strings = []
+    n = 1500 if ctx.tier == 'quick' else 8000
+    for i in range(n):
+        base = rng.choice(seeds) if rng.random() < 0.5 else ''.join(rng.choice(alpha) for _ in range(rng.randint(1, 6)))
+        strings.append(base + rng.choice(['', '', '/', '%20', 'x']) + 'h%d' % i)      # never seen before in this process
+    calls = []
+    for s_ in strings:
+        pairs = [(('enc', 0, 1), ('enc', 1, 1)), (('enc', 0, 0), ('enc', 1, 0))]
+        per = []
+        for a, b in pairs:
+            per += [a, b] if rng.random() < 0.5 else [b, a]
+        per += [('dec', True), ('dec', False), ('host',), ('unq',)]
+        rng.shuffle(per)
+        per += [rng.choice(per) for _ in range(3)]        # repetitions
+        calls += [(s_, c) for c in per]
+    # interleave: shuffle within windows so that calls on different strings alternate
+    w = 64
+    for i in range(0, len(calls), w):
+        blk = calls[i:i + w]
+        rng.shuffle(blk)
+        calls[i:i + w] = blk
+    names = {(0, 0): 'encode', (1, 0): 'encode_value', (0, 1): 'encode_check_escaped', (1, 1): 'encode_value_check_escaped'}
+
+    def run_impl(s_, c):
+        if c[0] == 'enc':
+            return call(getattr(uri, names[(c[1], c[2])]), s_)
+        if c[0] == 'dec':
+            return call(uri.decode, s_, c[1])
+        if c[0] == 'host':
+            return call(uri.parse_host, s_, None)
+        return call(uri.unquote_string, s_)
+
+    def wire_case(s_, c):
+        if c[0] == 'enc':
+            return [1, c[1], c[2], s_]
+        if c[0] == 'dec':
+            return [0, s_, c[1]]
+        if c[0] == 'host':
+            return [2, s_, []]
+        return [3, s_]
+
+    def model_res(c, o):
+        if c[0] == 'enc':
+            return m_res_str(o)
+        if c[0] == 'dec':
+            return m_res_str(o[0])
+        if c[0] == 'host':
+            return ('ok', (common.wstr(o[1][0]), common.wopt(o[1][1]))) if o[0] == 1 else ('exc', 'ValueError')
+        return ('ok', common.wstr(o))
+    uniq = sorted(set(calls), key=repr)
+    expected = dict(zip(uniq, (model_res(c, o) for (s_, c), o in zip(uniq, model.run_many([wire_case(s_, c) for s_, c in uniq])))))
+    seen = {}
+    for i, (s_, c) in enumerate(calls):
+        r = run_impl(s_, c)
+        ctx.count('history')
+        ctx.note_case(('hist', i), True)
+        first = seen.setdefault((s_, c), r)
+        if r != expected[(s_, c)] or r != first:
+            prior = [list(map(str, cc)) for (ss, cc) in calls[:i] if ss == s_]
+            ctx.violation('result-depends-on-call-history',
+                          {'fn': names.get((c[1], c[2])) if c[0] == 'enc' else c[0], 'input': s_, 'call': list(map(str, c)),
+                           'impl': r, 'model_pure_function': expected[(s_, c)], 'first_result_of_same_call': first,
+                           'earlier_calls_on_this_string': prior,
+                           'clause': 'encode/decode are functions of their arguments: the result may not depend on earlier calls'},
+                          key='history-%s' % c[0])
 
 
 def decode_part(ctx, uri, model, strings):
@@ -393,6 +470,27 @@ def replay(ctx, obj):
     fn = obj.get('fn')
     s = obj.get('input')
     ctx.note_case(('replay', fn, s), True)
+    if obj.get('kind') == 'result-depends-on-call-history':
+        # re-run the earlier calls on this string, then the call itself, in this fresh process
+        names = {('0', '0'): 'encode', ('1', '0'): 'encode_value', ('0', '1'): 'encode_check_escaped',
+                 ('1', '1'): 'encode_value_check_escaped'}
+
+        def run(c):
+            if c[0] == 'enc':
+                return call(getattr(uri, names[(c[1], c[2])]), s)
+            if c[0] == 'dec':
+                return call(uri.decode, s, c[1] == 'True')
+            if c[0] == 'host':
+                return call(uri.parse_host, s, None)
+            return call(uri.unquote_string, s)
+        for c in obj.get('earlier_calls_on_this_string', []):
+            run(c)
+        r = run(obj['call'])
+        exp = obj.get('model_pure_function')
+        ctx.sample({'replayed': [fn, s], 'impl': r})
+        if list(r) != list(exp) and [r[0], r[1]] != exp:
+            ctx.violation('result-depends-on-call-history', {'fn': fn, 'input': s, 'impl': r, 'model_pure_function': exp})
+        return
     if fn == 'decode':
         for plus in ([obj['unquote_plus']] if 'unquote_plus' in obj else [True, False]):
             decode_part(ctx, uri, model, [s]) if False else None
